@@ -462,6 +462,11 @@ class Interp:
             if v.val is None:
                 return False
             return z3.Not(v.val.is_empty().t)
+        from .sym import MutList, SArr
+        if isinstance(v, MutList):
+            return v.val.length().t > 0
+        if isinstance(v, SArr):
+            return v.length().t > 0
         if isinstance(v, SRef):
             h = getattr(self, "ref_truth", None)
             return h(self, v) if h is not None else True
